@@ -2,12 +2,18 @@
   TinyLFU admission and LRU victim selection on the unsync model (C13, C12):
   the closed formula of the victim-aggregation loop, the exact effect of an insert
   that finds no room, the exact effect of `evict_lru_entries`, and the recency order
-  kept by hits, updates and admissions.
+  kept by hits, updates and admissions.  Then the correspondence between a state and its
+  snapshot (plus the invariant `HashOk`: a node stores the hash of its key), from which the
+  trace oracles `oracleC13` and `oracleC12` are shown to accept every model trace.
 -/
 import MiniMoka.Lemmas.UnsyncNoLoss
 
 namespace MiniMoka
 namespace Unsync
+
+/- Everything below lives in `MiniMoka.Unsync.Admit` so that its helper names cannot clash
+with those of lemma files written concurrently for other properties. -/
+namespace Admit
 
 /-! ### shortest sufficient prefix of a list of weights -/
 
@@ -927,6 +933,8 @@ theorem HashOk.maintain {p : Params} (hq : NoQuirks p) {s : UState} (hi : InvU p
   fun n hn => hh n (maintain_probSub hq hi n hn)
 
 
+/-! ### provenance of the nodes of the probation list, operation by operation -/
+
 @[simp] theorem unlinkWo_prob (s : UState) (e : UEntry) : (unlinkWo s e).prob = s.prob := by
   unfold unlinkWo; split
   · rfl
@@ -1274,7 +1282,7 @@ theorem maintain_of_calm {p : Params} {s : UState} (hs : Struct p s) {cap : Nat}
     simp [weightsToEvict, hcap]; omega
 
 
-open Spec
+/-! ### what the snapshot shows of a state (weights, estimates, recency order, keys) -/
 
 theorem find?_key_of_nodup {α : Type} (key : α → Nat) :
     ∀ (l : List α), (l.map key).Nodup → ∀ {a : α}, a ∈ l →
@@ -1420,7 +1428,7 @@ theorem predictAdmission_snapshot {p : Params} {s : UState} (hs : Struct p s) (h
     rw [← hF, List.map_take, List.map_take]
 
 
-open Spec
+/-! ### the C13 trace oracle on model traces -/
 
 theorem sameKeys_iff (a b : List Nat) : sameKeys a b = true ↔ ∀ x, x ∈ a ↔ x ∈ b := by
   simp only [sameKeys, Bool.and_eq_true, List.all_eq_true, List.contains_iff_mem]
@@ -1512,8 +1520,6 @@ theorem admissionOk_model {p : Params} (hq : NoQuirks p) {s : UState} (hi : InvU
       rw [hsp] at h1; cases h1
       exact hf h2
 
-
-open Spec
 
 theorem run_cons (p : Params) (s : UState) (op : Op) (rest : List Op) :
     run p s (op :: rest) = (op, (step p s op).2) :: run p (step p s op).1 rest := by
@@ -1625,5 +1631,248 @@ theorem oracleC13_trace {P : Sketch → Prop} (L : SketchLaws P) {p : Params} (h
       (fun n hn => by simp at hn)
 
 
+/-! ### the C12 trace oracle (growth eviction) on model traces -/
+
+theorem length_le_of_nodup_subset : ∀ (l m : List Nat), l.Nodup → (∀ x ∈ l, x ∈ m) →
+    l.length ≤ m.length := by
+  intro l
+  induction l with
+  | nil => intro m _ _; simp
+  | cons a l ih =>
+    intro m hn hsub
+    simp only [List.nodup_cons] at hn
+    have ha : a ∈ m := hsub a List.mem_cons_self
+    have := ih (m.erase a) hn.2 (by
+      intro x hx
+      have hne : x ≠ a := fun e => hn.1 (e ▸ hx)
+      exact (List.mem_erase_of_ne hne).mpr (hsub x (List.mem_cons_of_mem _ hx)))
+    rw [List.length_erase_of_mem ha] at this
+    have hpos : 0 < m.length := List.length_pos_of_mem ha
+    simp only [List.length_cons]; omega
+
+theorem prob_length_le_map {p : Params} {s : UState} (hs : Struct p s) :
+    s.prob.length ≤ s.map.length := by
+  have h1 := length_le_of_nodup_subset (s.prob.map (·.key)) (AL.keys s.map) (prob_keys_nodup hs)
+    (by
+      intro x hx
+      obtain ⟨e, he⟩ := (mem_prob_keys_iff hs x).mp hx
+      exact AL.mem_keys_of_get? he)
+  rw [List.length_map, AL.keys_eq_map, List.length_map] at h1
+  exact h1
+
+@[simp] theorem moveToBackAoE_map (s : UState) (e : UEntry) : (moveToBackAoE s e).map = s.map := by
+  unfold moveToBackAoE; split
+  · rfl
+  · split <;> simp
+
+@[simp] theorem moveToBackAoE_now (s : UState) (e : UEntry) : (moveToBackAoE s e).now = s.now := by
+  unfold moveToBackAoE; split
+  · rfl
+  · split
+    · rfl
+    · unfold UState.fail; split <;> rfl
+
+@[simp] theorem recordHit_map (s : UState) (e : UEntry) (ts : Option Nat) :
+    (recordHit s e ts).map = s.map := by
+  unfold recordHit
+  simp only [moveToBackAoE_map]
+  split <;> rfl
+
+@[simp] theorem recordHit_now (s : UState) (e : UEntry) (ts : Option Nat) :
+    (recordHit s e ts).now = s.now := by
+  unfold recordHit
+  simp only [moveToBackAoE_now]
+  split <;> rfl
+
+theorem sketchIncrement_now (p : Params) (s : UState) (h : UInt64) :
+    (sketchIncrement p s h).now = s.now := by
+  unfold sketchIncrement; split
+  · rfl
+  · unfold UState.fail; split <;> rfl
+
+/-- A lookup changes the map and the clock only through its maintenance. -/
+theorem get_map_now (p : Params) (s : UState) (k : Nat) :
+    (get p s k).1.map = (maintain p s).map ∧ (get p s k).1.now = (maintain p s).now := by
+  unfold get
+  dsimp only
+  have h1 := sketchIncrement_map p (maintain p s) (p.hash k)
+  have h2 := sketchIncrement_now p (maintain p s) (p.hash k)
+  generalize sketchIncrement p (maintain p s) (p.hash k) = s2 at *
+  rw [← h1, ← h2]
+  split
+  · exact ⟨rfl, rfl⟩
+  · split
+    · simp
+    · split
+      · exact ⟨rfl, rfl⟩
+      · simp
+
+/-- The check the C12 oracle performs around a lookup on a cache that is over capacity. -/
+theorem growthCheck_model {p : Params} (hq : NoQuirks p) {s : UState} (hi : InvU p s)
+    {cap : Nat} (hcap : p.cap = some cap) (s' : UState) (b : Bool)
+    (hb : b = true → s'.map = (maintain p s).map ∧ s'.now = (maintain p s).now) :
+    (!(b && ((snapshot p s).entries.all (entryLiveAt p.ttl p.tti (snapshot p s').now none) &&
+           (snapshot p s).entries.all (fun e => e.aoOk) && (snapshot p s).prob.all (·.current)) &&
+         decide ((snapshot p s).ws > cap) &&
+         decide ((snapshot p s).entries.length ≤ Gen.UNSYNC_EVICTION_BATCH_SIZE)) ||
+      sameKeys (keysOf (snapshot p s'))
+        ((keysOf (snapshot p s)).filter (fun x =>
+          !(match shortestPrefix (snapshot p s) ((snapshot p s).ws - cap)
+                (lruOrder (snapshot p s)) 0 [] with
+            | some pre => pre
+            | none => lruOrder (snapshot p s)).contains x))) = true := by
+  cases happ : (b && ((snapshot p s).entries.all (entryLiveAt p.ttl p.tti (snapshot p s').now none) &&
+           (snapshot p s).entries.all (fun e => e.aoOk) && (snapshot p s).prob.all (·.current)) &&
+         decide ((snapshot p s).ws > cap) &&
+         decide ((snapshot p s).entries.length ≤ Gen.UNSYNC_EVICTION_BATCH_SIZE)) with
+  | false => rfl
+  | true =>
+  simp only [Bool.not_true, Bool.false_or]
+  simp only [Bool.and_eq_true, decide_eq_true_eq] at happ
+  obtain ⟨⟨⟨hbt, ⟨⟨hlive, _⟩, _⟩⟩, hover⟩, hlen⟩ := happ
+  obtain ⟨hmap, hnow⟩ := hb hbt
+  obtain ⟨_, _, haux⟩ := maintain_spec hq hi
+  have hnow' : (snapshot p s').now = s.now := by
+    show s'.now = s.now
+    rw [hnow, haux.now]
+  rw [hnow', snapshot_entries_all] at hlive
+  -- nothing is expired, so maintenance is the growth eviction
+  have hexp : ∀ k e, AL.get? s.map k = some e → isExpiredEntry p s e s.now = false := by
+    intro k e he
+    have := hlive k e (AL.mem_of_get? he)
+    simp only [entryLiveAt, entryView, Bool.and_eq_true, Bool.not_eq_true'] at this
+    simp only [isExpiredEntry, Bool.or_eq_false_iff]
+    exact ⟨this.1.1, this.1.2⟩
+  have hmt : maintain p s = evictLru p s := by
+    unfold maintain evictExpiredIfNeeded
+    split
+    · rw [evictExpired_noop hi.struct hexp]
+    · rfl
+  obtain ⟨_, hmapE⟩ := evictLru_exact hi
+  have hlenE : (snapshot p s).entries.length = s.map.length := by
+    simp [snapshot, length_sortBy]
+  have hcut : lruCut p s = prefLen (s.ws - cap) (probWeights s) := by
+    have h1 := prefLen_le_length (s.ws - cap) (probWeights s)
+    have h2 := prob_length_le_map hi.struct
+    have h3 : (probWeights s).length = s.prob.length := by simp [probWeights]
+    simp only [lruCut, weightsToEvict, hcap, EVICTION_BATCH_SIZE]
+    rw [hlenE] at hlen
+    omega
+  -- the victims named by the oracle
+  have hvict : (match shortestPrefix (snapshot p s) ((snapshot p s).ws - cap)
+        (lruOrder (snapshot p s)) 0 [] with
+      | some pre => pre
+      | none => lruOrder (snapshot p s)) = (s.prob.take (lruCut p s)).map (·.key) := by
+    rw [shortestPrefix_eq, lruOrder_snapshot, hcut]
+    have hW : (s.prob.map (·.key)).map (weightOfKey (snapshot p s)) = probWeights s := by
+      rw [List.map_map]
+      exact List.map_congr_left (fun n _ => weightOfKey_snapshot hi.struct n.key)
+    have hws : (snapshot p s).ws = s.ws := rfl
+    rw [hW, hws, Nat.sub_zero]
+    unfold prefLen
+    cases shortestPre (s.ws - cap) (probWeights s) with
+    | none => simp [probWeights]
+    | some n => simp [List.map_take]
+  rw [hvict, sameKeys_iff]
+  intro x
+  rw [mem_keysOf_snapshot, hmap, hmt, hmapE, get?_eraseKeys hi.struct.keysNodup]
+  simp only [List.mem_filter, Bool.not_eq_true', mem_keysOf_snapshot]
+  by_cases hin : x ∈ (s.prob.take (lruCut p s)).map (·.key)
+  · rw [if_pos hin]
+    constructor
+    · rintro ⟨e, he⟩; cases he
+    · rintro ⟨_, h⟩
+      rw [← List.contains_iff_mem] at hin
+      rw [hin] at h; cases h
+  · rw [if_neg hin]
+    constructor
+    · intro h
+      refine ⟨h, ?_⟩
+      cases hc : ((s.prob.take (lruCut p s)).map (·.key)).contains x with
+      | false => rfl
+      | true => exact absurd (List.contains_iff_mem.mp hc) hin
+    · exact fun h => h.1
+
+
+/-- The C12 growth walk over a model trace: every `snap, lookup, snap` window passes. -/
+theorem growthC12_run {P : Sketch → Prop} (L : SketchLaws P) {p : Params} (hq : NoQuirks p)
+    (hsm : SmallSketch p) {cap : Nat} (hcap : p.cap = some cap) :
+    ∀ (n : Nat) (h : List Op), h.length ≤ n → ∀ (s : UState), Inv P p s →
+      growthC12 cap p.ttl p.tti Gen.UNSYNC_EVICTION_BATCH_SIZE (run p s h) = true := by
+  intro n
+  induction n with
+  | zero =>
+    intro h hl s _
+    have : h = [] := List.length_eq_zero_iff.mp (Nat.le_zero.mp hl)
+    subst this
+    simp [run, growthC12]
+  | succ n ih =>
+    intro h hl s hi
+    cases h with
+    | nil => simp [run, growthC12]
+    | cons op rest =>
+      have hlr : rest.length ≤ n := by simpa using hl
+      rw [run_cons]
+      unfold growthC12
+      split
+      · rename_i before op2 ob after rest' heq
+        obtain ⟨e1, e2⟩ := List.cons.inj heq
+        have hop : op = .snap := (Prod.mk.inj e1).1
+        subst hop
+        rw [step_snap L hq hsm hi] at e1 e2
+        have hbefore : before = snapshot p s := by
+          have := (Prod.mk.inj e1).2; exact (Obs.snap.inj this).symm
+        obtain ⟨op2', r2, hr2, hx2, ht2⟩ := run_eq_cons e2
+        have hop2 : op2' = op2 := (Prod.mk.inj hx2).1.symm
+        subst hop2
+        have hi2 := step_inv L hq hsm hi op2'
+        obtain ⟨op3, r3, hr3, hx3, ht3⟩ := run_eq_cons ht2.symm
+        have hop3 : op3 = .snap := (Prod.mk.inj hx3).1.symm
+        subst hop3
+        rw [step_snap L hq hsm hi2] at hx3 ht3
+        have hafter : after = snapshot p (step p s op2').1 := by
+          have := (Prod.mk.inj hx3).2; exact Obs.snap.inj this
+        subst hr2 hr3
+        rw [Bool.and_eq_true]
+        refine ⟨?_, ?_⟩
+        · dsimp only
+          rw [hbefore, hafter]
+          refine growthCheck_model hq hi.inv hcap _ _ ?_
+          intro hb
+          rw [step_state L hq hsm hi op2']
+          cases op2' with
+          | get k => exact get_map_now p s k
+          | has k => dsimp only; rw [containsKey_state]; exact ⟨rfl, rfl⟩
+          | _ => simp at hb
+        · split
+          · rfl
+          · have : (Op.snap, Obs.snap after) :: rest' = run p (step p s op2').1 (.snap :: r3) := by
+              rw [run_cons, step_snap L hq hsm hi2, hafter, ht3]
+            rw [this]
+            refine ih _ ?_ _ hi2
+            simp only [List.length_cons] at hlr ⊢
+            omega
+      · rename_i x t heq
+        obtain ⟨_, e2⟩ := List.cons.inj heq
+        rw [← e2]
+        exact ih rest hlr _ (step_inv L hq hsm hi op)
+      · rfl
+
+/-- **C12 on traces** (single-threaded cache): the oracle accepts every trace of the model. -/
+theorem oracleC12_trace {P : Sketch → Prop} (L : SketchLaws P) {p : Params} (hq : NoQuirks p)
+    (hsm : SmallSketch p) (h : List Op) :
+    oracleC12 .unsync p.cap p.ttl p.tti p.weigh Gen.UNSYNC_EVICTION_BATCH_SIZE (trace p h) = true := by
+  unfold oracleC12 trace
+  cases hcap : p.cap with
+  | none => rfl
+  | some cap =>
+    dsimp only
+    rw [Bool.and_eq_true]
+    exact ⟨admitC13_run L hq hsm hcap h.length h (Nat.le_refl _) {} (init_inv L p)
+        (fun n hn => by simp at hn),
+      growthC12_run L hq hsm hcap h.length h (Nat.le_refl _) {} (init_inv L p)⟩
+
+
+end Admit
 end Unsync
 end MiniMoka
